@@ -164,6 +164,19 @@ def main():
         vals[name + "_BE"] = int.from_bytes(raw, "big") if raw else 0
         vals[name + "_LEN"] = len(raw)
         str_names += [name + "_BE", name + "_LEN"]
+    # A constant that can no longer be located is a broken tie (reported through `missing`), but the
+    # last known value (tools/consts_fallback.json, committed) is still emitted so that the model
+    # keeps building and the check can go on to search for a failing input.
+    fb_path = os.path.join(os.path.dirname(os.path.abspath(__file__)), "consts_fallback.json")
+    try:
+        fallback = json.load(open(fb_path))
+    except Exception:
+        fallback = {}
+    for name, path, why in missing:
+        if name in fallback and name not in vals:
+            vals[name] = fallback[name]
+    if os.environ.get("VERIF_WRITE_FALLBACK") == "1" and not missing:
+        json.dump(vals, open(fb_path, "w"), indent=1, sort_keys=True)
     lines = [
         "(* GENERATED by tools/gen_consts.py from the Rust source on every check. Do not edit. *)",
         "From Coq Require Import NArith.",
